@@ -1,11 +1,13 @@
 #!/usr/bin/env python3-vt
 import json,jsonschema,glob,sys
 jsonschema.validate(json.load(open('/verif/MANIFEST.json')),json.load(open('/root/.vp/MANIFEST.schema.json')))
+bad=False
 es=json.load(open('/root/.vp/EVIDENCE.schema.json'))
 m=json.load(open('/verif/MANIFEST.json'))
 for c in m['checks']:
     try:
         jsonschema.validate(json.load(open(c['evidence_file'])),es)
     except Exception as e:
-        print("BAD",c['property_id'],str(e)[:200]); continue
+        print("BAD",c['property_id'],str(e)[:200]); bad=True; continue
+sys.exit(1) if bad else None
 print("manifest ok; evidence checked for",[c['property_id'] for c in m['checks']])
